@@ -174,6 +174,70 @@ impl TokenSink for HSink {
 
 mod xml;
 
+/// serializer events (one per line: `ev start|end|text ...`) through the real XmlSerializer, then the output through the
+/// real XML parser into an RcDom; prints the serialized text and the (namespace, local name) of every element / attribute
+fn xmlser(inp: &str) {
+    use markup5ever::serialize::Serializer;
+    use markup5ever_rcdom::{Handle, NodeData, RcDom};
+    use tendril::TendrilSink;
+    use xml5ever::serialize::XmlSerializer;
+    use xml5ever::{LocalName, Namespace, Prefix, QualName};
+    fn qn(p: &str, u: &str, l: &str) -> QualName {
+        QualName::new(if p == "-" { None } else { Some(Prefix::from(p)) }, Namespace::from(if u == "-" { "" } else { u }), LocalName::from(l))
+    }
+    let mut out: Vec<u8> = vec![];
+    {
+        let mut ser = XmlSerializer::new(&mut out);
+        for l in inp.lines() {
+            let f: Vec<&str> = l.split(' ').collect();
+            if f[0] != "ev" {
+                continue;
+            }
+            match f[1] {
+                "start" => {
+                    let name = qn(f[2], f[3], f[4]);
+                    let mut attrs: Vec<(QualName, String)> = vec![];
+                    let mut i = 5;
+                    while i + 3 < f.len() {
+                        attrs.push((qn(f[i], f[i + 1], f[i + 2]), String::from_utf8(unhex(f[i + 3])).unwrap()));
+                        i += 4;
+                    }
+                    ser.start_elem(name, attrs.iter().map(|(n, v)| (n, &v[..]))).unwrap();
+                },
+                "end" => ser.end_elem(qn(f[2], f[3], f[4])).unwrap(),
+                "text" => ser.write_text(&String::from_utf8(unhex(f[2])).unwrap()).unwrap(),
+                x => panic!("event {x}"),
+            }
+        }
+    }
+    let text = String::from_utf8(out).unwrap();
+    println!("ser {}", text.as_bytes().iter().map(|b| format!("{b:02x}")).collect::<String>());
+    let dom: RcDom = xml5ever::driver::parse_document(RcDom::default(), Default::default()).one(&text[..]);
+    fn walk(h: &Handle) {
+        match &h.data {
+            NodeData::Element { name, attrs, .. } => {
+                let mut a: Vec<String> = attrs
+                    .borrow()
+                    .iter()
+                    .filter(|a| &*a.name.ns != "http://www.w3.org/2000/xmlns/")
+                    .map(|a| format!("{{{}}}{}={}", &*a.name.ns, &*a.name.local, a.value.as_bytes().iter().map(|b| format!("{b:02x}")).collect::<String>()))
+                    .collect();
+                a.sort();
+                println!("elem {{{}}}{} [{}]", &*name.ns, &*name.local, a.join(" "));
+            },
+            NodeData::Text { contents } => println!("text {}", contents.borrow().as_bytes().iter().map(|b| format!("{b:02x}")).collect::<String>()),
+            _ => {},
+        }
+        for c in h.children.borrow().iter() {
+            walk(c);
+        }
+        if let NodeData::Element { .. } = &h.data {
+            println!("end");
+        }
+    }
+    walk(&dom.document);
+}
+
 /// raw byte chunks through the real tendril::stream::Utf8LossyDecoder: prints what the inner sink received and how
 /// many times error() was called
 fn decode(chunks: &[Vec<u8>]) {
@@ -263,9 +327,14 @@ fn main() {
             "inject" => inject = Some(String::from_utf8(unhex(v)).unwrap()),
             "content" => content = String::from_utf8(unhex(v)).unwrap(),
             "bytes" => raw_chunks.push(unhex(v)),
+            "ev" => {},
             "" => {},
             x => panic!("directive {x}"),
         }
+    }
+    if mode == "xmlser" {
+        xmlser(&inp);
+        return;
     }
     if mode == "decode" {
         decode(&raw_chunks);
